@@ -227,3 +227,43 @@ def run(ctx):
         "coordinates are logged in 10^-6 fixed point with a slack of 2 units; tan(tilt) is supplied as an exact rational (tilt = atan2(tn, td))",
         "the in-rectangle half is predicate checking by TLC on logged points, not state exploration",
     ]
+
+
+def replay(ctx, obj):
+    """./check C27 --replay FILE: re-execute the failing request and let TLC judge the produced points"""
+    if isinstance(obj.get("replay"), dict):     # a file written by ./check: {sig, what, replay}
+        obj = obj["replay"]
+    if "args" in obj and "indices" in obj:
+        xc, yc, xr, yr, xn, yn = obj["args"]
+        rec = {"t": "square", "xn": xn, "yn": yn, "idx": square_indices(xc, yc, xr, yr, xn, yn)}
+        print(f"spiral_square_pattern({xc}, {yc}, {xr}, {yr}, {xn}, {yn}) -> lattice indices {rec['idx']}")
+    elif "case" in obj and obj["case"].get("t") == "square":
+        c = obj["case"]
+        xc, yc, xr, yr = c["args"]
+        rec = {"t": "square", "xn": c["xn"], "yn": c["yn"], "idx": square_indices(xc, yc, xr, yr, c["xn"], c["yn"])}
+        print(f"spiral_square_pattern({xc}, {yc}, {xr}, {yr}, {c['xn']}, {c['yn']}) -> lattice indices {rec['idx'][:60]}")
+    elif "case" in obj:
+        c = obj["case"]
+        F = Fraction
+        k = c["req"].get("nth", c["req"].get("factor"))
+        asp = None if c["req"]["dr_y"] is None else F(c["an"], c["ad"])
+        rec = rect_case(c["fn"], F(c["cx"], MICRO), F(c["cy"], MICRO), F(c["xr"], MICRO), F(c["yr"], MICRO),
+                        F(c["req"]["dr"]).limit_denominator(10 ** 6), k, asp, (c["tn"], c["td"]))
+        print(f"{c['fn']}({rec['req']}) -> {len(rec['pts'])} points")
+        rec = {k2: v for k2, v in rec.items() if k2 not in ("req", "raised")}
+    else:
+        print(json.dumps(obj, indent=1)[:4000])
+        return 0
+    tf = ctx.out / "replay_case.ndjson"
+    tf.write_text(json.dumps(rec) + "\n")
+    res = run_tlc("SpiralTrace", "SpiralTrace.cfg", spec_dir=SD, env={"TRACE_FILE": tf}, tag="C27replay", extra=["-continue"])
+    out = re.findall(r'<<"OUTSIDE", (\d+), (\d+), (\d+)>>', res.stdout)
+    if out:
+        n, first = int(out[0][1]), int(out[0][2]) - 1
+        p = rec["pts"][first]
+        print(f"  {n} point(s) outside the requested rectangle, first ({p[0] / MICRO}, {p[1] / MICRO})")
+    if res.ok and not out:
+        print("  accepted by SpiralTrace (the violation does not reproduce)")
+        return 0
+    print(f"  reproduces: {'invariant ' + res.violated + ' violated' if not res.ok else 'accepted only through the exempted known-finding alternative KF_FermatAsCoded'}")
+    return 1
